@@ -45,6 +45,7 @@ var (
 	instV = []mz.V{{Tag: 1, S: "a"}, {Tag: 2, S: "bb"}, {Tag: 3}}
 	instU = []interface{}{mz.NewU(1), mz.NewU(2), mz.NewU(3)}
 	instE = []*mz.E{{A: mz.A{Tag: 1}, Extra: 5}, {A: mz.A{Tag: 2}}, {A: mz.A{Tag: 3}}}
+	instM = []*mz.M{{Tag: 1}, {Tag: 2, Y: [2]int{4, 5}}, {Tag: 3}}
 	gInt  = []*mz.G[int]{{Tag: 1, X: 5}, {Tag: 2}, {Tag: 3, X: -1}}
 	gStr  = []*mz.G[string]{{Tag: 1, X: "x"}, {Tag: 2}, {Tag: 3, X: "yy"}}
 	gPA   = []*mz.G[*mz.A]{{Tag: 1, X: instA[0]}, {Tag: 2}, {Tag: 3}}
@@ -98,6 +99,30 @@ func (w *methodWorld) Do(st Step) string {
 					bl.Struct(mz.V{}).Method(meth).Apply(cb)
 				} else {
 					bl.Struct(mz.V{}).Method(meth).Return(base + 7)
+				}
+			case "M":
+				if meth == "P" {
+					if apply {
+						bl.Struct(&mz.M{}).Method("P").Apply(func(p *mz.M, a int) int {
+							if p == nil || p != instM[p.Tag-1] {
+								w.bad("M.P: receiver %p is not the instance", p)
+							}
+							return base + a
+						})
+					} else {
+						bl.Struct(&mz.M{}).Method("P").Return(base + 7)
+					}
+				} else {
+					if apply {
+						bl.Struct(mz.M{}).Method("Q").Apply(func(v mz.M, a int) int {
+							if v.Tag < 1 || v.Tag > 3 || v != *instM[v.Tag-1] {
+								w.bad("M.Q: receiver %+v is not a copy of the instance", v)
+							}
+							return base + a
+						})
+					} else {
+						bl.Struct(mz.M{}).Method("Q").Return(base + 7)
+					}
 				}
 			case "u":
 				h := bl.Pkg(mzPkg).ExportStruct("*u").Method("Call")
@@ -187,6 +212,10 @@ func (w *methodWorld) call(t string, i int) int {
 		return instE[i].Own(7)
 	case "E.Call": // promoted from the embedded A
 		return instE[i].Call(7)
+	case "M.P":
+		return instM[i].P(7)
+	case "M.Q":
+		return (*instM[i]).Q(7)
 	case "Gint.M":
 		return gInt[i].M(7)
 	case "Gstr.M":
@@ -200,7 +229,7 @@ func (w *methodWorld) call(t string, i int) int {
 }
 
 var origBase = map[string]int{"A.Call": 100, "A.Call2": 200, "A.call": 300, "V.Call": 400, "V.Get": 500, "u.Call": 600, "E.Own": 700,
-	"E.Call": 100, "Gint.M": 800, "Gstr.M": 800, "GpA.M": 800, "GpV.M": 800}
+	"E.Call": 100, "M.P": 900, "M.Q": 1000, "Gint.M": 800, "Gstr.M": 800, "GpA.M": 800, "GpV.M": 800}
 
 func (w *methodWorld) Observe(st Step) map[string]string {
 	out := map[string]string{}
